@@ -335,13 +335,23 @@ namespace nmtools::utils
             // "specialize" on index array, avoid using ndindex
             else if constexpr (meta::is_index_array_v<T> && meta::is_index_array_v<U>) {
                 bool equal = true;
-                // TODO: static assert whenever possible
-                // NOTE: use assert instead of exception, to support compile with -fno-exceptions
-                nmtools_cassert ( (nm_size_t)len(t)==(nm_size_t)len(u)
-                    , "mismatched dimension"
-                );
+                // index arrays of different length are different (and must not be read past their end)
+                if ((nm_size_t)len(t)!=(nm_size_t)len(u)) {
+                    return false;
+                }
+                // both lengths known at compile time and different: nothing to compare element-wise
+                constexpr auto same_fixed_len = [](){
+                    if constexpr (meta::is_fixed_index_array_v<T> && meta::is_fixed_index_array_v<U>) {
+                        return (nm_size_t)meta::fixed_index_array_size_v<T> == (nm_size_t)meta::fixed_index_array_size_v<U>;
+                    } else {
+                        return true;
+                    }
+                }();
+                if constexpr (!same_fixed_len) {
+                    return false;
+                }
                 // prefer fixed size for indexing to allow constant index
-                if constexpr (meta::is_fixed_index_array_v<T>) {
+                else if constexpr (meta::is_fixed_index_array_v<T>) {
                     constexpr auto N = meta::fixed_index_array_size_v<T>;
                     using t_t = meta::get_element_or_common_type_t<T>;
                     using u_t = meta::get_element_or_common_type_t<U>;
@@ -399,23 +409,19 @@ namespace nmtools::utils
                     // TODO: static assert whenever possible
                     // NOTE: use assert instead of exception, to support compile with -fno-exceptions
                     // TODO: use maybe type
-                    nmtools_cassert( ((common_t)t_dim == (common_t)u_dim)
-                        , "dimension mismatch for isequal"
-                    );
+                    // arrays of different dimension are different
+                    if ((common_t)t_dim != (common_t)u_dim) {
+                        return false;
+                    }
                 }
                 auto t_shape = ::nmtools::shape(t);
                 auto u_shape = ::nmtools::shape(u);
+                // arrays of different shape are different, even when they hold the same number of elements
+                if (!isequal(t_shape,u_shape)) {
+                    return false;
+                }
                 auto t_indices = ndindex(t_shape);
                 auto u_indices = ndindex(u_shape);
-                // TODO: static assert whenever possible
-                auto t_size = t_indices.size();
-                auto u_size = u_indices.size();
-                {
-                    using common_t [[maybe_unused]] = meta::promote_index_t<decltype(t_size),decltype(u_size)>;
-                    nmtools_cassert( ((common_t)t_size == (common_t)u_size)
-                        , "size mismatch for isequal"
-                    );
-                }
                 using t_t = meta::get_element_or_common_type_t<T>;
                 using u_t = meta::get_element_or_common_type_t<U>;
                 using common_t = meta::promote_index_t<t_t,u_t>;
